@@ -17,6 +17,7 @@ package v1
 import (
 	"bytes"
 	"crypto/sha256"
+	"encoding/binary"
 	"encoding/json"
 	"errors"
 	"fmt"
@@ -38,6 +39,7 @@ import (
 	"github.com/tendermint/tendermint/libs/clist"
 	"github.com/tendermint/tendermint/libs/log"
 	"github.com/tendermint/tendermint/mempool"
+	tmproto "github.com/tendermint/tendermint/proto/tendermint/types"
 	"github.com/tendermint/tendermint/types"
 )
 
@@ -402,6 +404,37 @@ func c12ErrName(err error) string {
 	return "err:" + err.Error()
 }
 
+// c12Marshalled: the size of the reaped txs as the block's Data really encodes (the generated
+// protobuf code, not the mempool's own accounting); an observation for TLC, not a verdict
+func c12Marshalled(txs types.Txs) int {
+	d := tmproto.Data{Txs: make([][]byte, len(txs))}
+	for i, tx := range txs {
+		d.Txs[i] = tx
+	}
+	return d.Size()
+}
+
+// c12EncLen: tag + varint(len) + len, used only to AIM byte limits at the encoded prefix sizes
+func c12EncLen(n int) int64 {
+	var buf [binary.MaxVarintLen64]byte
+	return int64(1 + binary.PutUvarint(buf[:], uint64(n)) + n)
+}
+
+// c12TightLimit: a byte limit at the encoded size of a random prefix of the reap order, moved by
+// 0, +-1, +-2 or -3
+func c12TightLimit(rng *rand.Rand, all types.Txs) int64 {
+	k := rng.Intn(len(all) + 1)
+	var sum int64
+	for _, tx := range all[:k] {
+		sum += c12EncLen(len(tx))
+	}
+	b := sum + int64(rng.Intn(6)-3)
+	if b < 0 {
+		b = 0
+	}
+	return b
+}
+
 func c12Names2(txs types.Txs) []string {
 	out := []string{}
 	for _, tx := range txs {
@@ -601,7 +634,8 @@ func (s *c12Sys) exec(st c12Step) c12M {
 	case "ReapMaxTxs":
 		return c12M{"ev": "ReapMaxTxs", "n": st.N, "result": c12Names2(mem.ReapMaxTxs(st.N))}
 	case "ReapMaxBytesMaxGas":
-		return c12M{"ev": "ReapMaxBytesMaxGas", "b": st.B, "g": st.G, "result": c12Names2(mem.ReapMaxBytesMaxGas(st.B, st.G))}
+		res := mem.ReapMaxBytesMaxGas(st.B, st.G)
+		return c12M{"ev": "ReapMaxBytesMaxGas", "b": st.B, "g": st.G, "result": c12Names2(res), "enc": c12Marshalled(res)}
 	}
 	s.skips++
 	return nil
@@ -648,6 +682,10 @@ func c12RandomCfg(rng *rand.Rand) c12Cfg {
 	nkeys := 3 + rng.Intn(4)
 	cfg := c12Cfg{Version: "v1", TxSize: map[string]int{}}
 	sizes := []int{1, 1, 2, 3, 5, 40, 130, 200}
+	boundary := rng.Intn(3) == 0 // tx lengths around the varint steps of the protobuf length prefix
+	if boundary {
+		sizes = []int{1, 127, 128, 128, 129, 16383, 16384, 16384, 16385, 16511, 16512}
+	}
 	for i := 0; i < nkeys; i++ {
 		cfg.TxSize[string(rune('a'+i))] = sizes[rng.Intn(len(sizes))]
 	}
@@ -658,6 +696,10 @@ func c12RandomCfg(rng *rand.Rand) c12Cfg {
 	}
 	cfg.MaxTxsBytes = int64(1 + rng.Intn(sum+1))
 	cfg.MaxTxBytes = []int{1, 2, 3, 50, 1000}[rng.Intn(5)]
+	if boundary {
+		cfg.MaxTxBytes = []int{20000, 20000, 20000, 16384}[rng.Intn(4)]
+		cfg.Size = 2 + rng.Intn(3)
+	}
 	cfg.CacheSize = []int{0, 1, 1, 2, 2, 3, 100}[rng.Intn(7)]
 	cfg.KeepInvalid = rng.Intn(3) == 0
 	cfg.Recheck = rng.Intn(4) != 0
@@ -739,7 +781,11 @@ func c12RandomRun(w *c12Writer, run int, rng *rand.Rand, n int, stats *c12Stats)
 		case x < 93:
 			emit(c12Step{Op: "ReapMaxTxs", N: rng.Intn(5) - 1})
 		default:
-			emit(c12Step{Op: "ReapMaxBytesMaxGas", B: []int64{-1, 0, 3, 6, 7, 10, 50, 300}[rng.Intn(8)], G: int64(rng.Intn(7) - 1)})
+			if rng.Intn(2) == 0 {
+				emit(c12Step{Op: "ReapMaxBytesMaxGas", B: c12TightLimit(rng, s.mem.ReapMaxTxs(-1)), G: -1})
+			} else {
+				emit(c12Step{Op: "ReapMaxBytesMaxGas", B: []int64{-1, 0, 3, 6, 7, 10, 50, 300}[rng.Intn(8)], G: int64(rng.Intn(7) - 1)})
+			}
 		}
 	}
 }
